@@ -93,6 +93,25 @@ def main():
         if un:
             notes.append(f"formula tie: {len(un)} kernel(s) not located in the current source, tied by the correspondence only: {un}")
 
+    # ---- 0a' control-flow translator: regenerate Gen/Control.lean (automaton of monotonic_prop, get_lower_index) for FormulaTie.Ctl
+    if any(m_.endswith("FormulaTie.Ctl") for m_ in mod.LEAN_MODULES):
+        tc = os.path.join(vlib.VERIF, "tools", "translate_control.py")
+        rc_c, out_c = vlib.sh([sys.executable, tc])
+        okc, outc = (False, out_c) if rc_c != 0 else vlib.lake_build(["NdInterp.Gen.Control"])
+        if not okc:
+            # the translator produced something Lean does not accept (e.g. a loop whose termination it cannot show): its own failure,
+            # never an alarm — every function becomes `unavailable` and the property is tied by the correspondence runs alone
+            notes.append("control-flow translator output rejected; all functions marked unavailable: " + (outc or "")[-300:])
+            vlib.sh([sys.executable, tc, "--all-unavailable"])
+        try:
+            ct_status = json.load(open(os.path.join(vlib.LEAN, "NdInterp", "Gen", "Control.status.json")))
+        except Exception:
+            ct_status = {}
+        ft_status.update({"ctl:" + k: v for k, v in ct_status.items()})
+        unc = {k: v for k, v in ct_status.items() if not v.startswith("translated")}
+        if unc:
+            notes.append(f"control-flow tie: {len(unc)} function(s) not translated from the current source, tied by the correspondence only: {unc}")
+
     # ---- 0b effort: the quick tier samples more when the code of /repo/src is not the tree the model was validated on ----
     import gen
     changed_src = vlib.src_changed_files()
